@@ -446,6 +446,7 @@ m("c14-nonatomic-check-then-delete", "C14", "ttl.go", """			value, expr, ok := s
 """)
 
 EQUIVALENT = {
+    "c20-wrapper-no-tail": "a hit behind the slice gives an index >= len/2, which the wrapper's idx < n/2 test discards before returning len/2",
     "c09-fastpath-needs-strict-room": "with room == 0 the eviction loop body never runs and the item is added all the same",
     "c18-estimate-max": "(hash ^ seed) & mask collides for two keys in one row iff it collides in every row, so all four rows always hold equal counters for a key: min == max",
     "c01-set-overwrites-colliding": "Get(k2) then returns k2's own value and Get(k1) misses: no value is returned for a different key, C01 holds",
